@@ -179,6 +179,8 @@ def observe(bu, isa):
             if dst not in m.proxies:
                 ob.edge_problems.append(("edge-target-proxy-not-in-module",))
             tgt = proxykey(dst)
+            if tgt[0] != "extern":
+                tgt = ("proxy", id(dst))
         else:
             dp = blockpos(dst)
             if dp is None or id(dst) not in live_nodes:
